@@ -54,11 +54,6 @@ Proof.
 Qed.
 
 (** the table behind [n] closings *)
-Definition mode_closes (md1 : mode) (n : nat) (depth0 : bool) : mode :=
-  match n with
-  | O => md1
-  | Datatypes.S n' => if depth0 then Clean else match md1, n' with Clean, O => Sib | _, _ => Dirty end
-  end.
 Lemma pop1 fo a x x1 : m_run fo (closes_toks [a]) x = Ok x1 -> m_prev x1 = hd None (m_stack x).
 Proof.
   cbn [closes_toks flat_map app m_run m_step]. destruct (m_stack x) as [|top stk]; [discriminate|]. cbn [bind hd].
@@ -121,11 +116,6 @@ Proof.
 Qed.
 
 (** ** static reading of closings *)
-Fixpoint pops_track (cs : list (option sym)) (s : tstate) : option tstate :=
-  match cs with
-  | [] => Some s
-  | a :: r => match t_names s with c :: ns => pops_track r (tmk (Some c) (oord a) ns false) | [] => None end
-  end.
 Lemma trun_closes : forall cs s, trun (closes_toks cs) s = pops_track cs s.
 Proof.
   induction cs as [|a r IH]; intros s; [reflexivity|].
@@ -181,42 +171,14 @@ Proof.
 Qed.
 
 (** ** texts *)
-Inductive g2seg := G2Plain (x : xlin) | G2Unit (u : unit_t) (cs : list (option sym)).
 Definition g2seg_str (s : g2seg) : pystr := match s with G2Plain x => xlin_str x | G2Unit u cs => gunit_str u ++ closes_str cs end.
 Definition g2seg_toks (s : g2seg) : list tok := match s with G2Plain x => xlin_toks x | G2Unit u cs => gunit_toks u ++ closes_toks cs end.
 Definition g2segs_str (l : list g2seg) : pystr := flat_map g2seg_str l.
 Definition g2segs_toks (l : list g2seg) : list tok := flat_map g2seg_toks l.
 Definition g2seg_nodes (s : g2seg) : nat := match s with G2Plain _ => 1%nat | G2Unit u _ => length (u_body u) end.
 Fixpoint g2segs_nodes (l : list g2seg) : nat := match l with [] => O | s :: t => (g2seg_nodes s + g2segs_nodes t)%nat end.
-Definition g2seg_ok (fo : float_oracle) (s : g2seg) : bool :=
-  match s with
-  | G2Plain x => xlin_ok fo x
-  | G2Unit u cs => gunit_ok fo u && closes_ok cs && (is_nil cs || negb (is_some (u_after u)))
-  end.
 
 (** where a unit may stand (as [ReaderGSegs.gtrack], with closings) *)
-Fixpoint g2track (md : mode) (s : tstate) (l : list g2seg) : bool :=
-  match l with
-  | [] => true
-  | G2Plain x :: t =>
-      match item_track (xbase x) s with
-      | None => false
-      | Some s1 =>
-          match pops_track (x_closes x) s1 with
-          | None => false
-          | Some s2 => g2track (mode_closes (mode_open md (x_open x)) (length (x_closes x)) (is_nil (t_names s2))) s2 t
-          end
-      end
-  | G2Unit u cs :: t =>
-      negb (t_flag s) && (match md with Dirty => false | _ => true end)
-      && (match t_cur s with Some c => str_eqb c (u_name u) | None => false end)
-      && Z.eqb (t_pend s) (oord (u_bond u))
-      && match pops_track cs (tmk (Some (u_name u)) (oord (u_after u)) (t_names s) false) with
-         | None => false
-         | Some s2 => g2track (if is_nil (t_names s2) then Clean else Dirty) s2 t
-         end
-  end.
-Definition g2segs_ok (fo : float_oracle) (l : list g2seg) : bool := forallb (g2seg_ok fo) l && g2track Clean t_init l.
 
 Lemma cont_g2segs fo s t : g2seg_ok fo s = true -> cont (g2segs_str (s :: t) ++ ["}"%char]).
 Proof.
